@@ -103,6 +103,37 @@ Definition upward_sites (ss : list site) (rank : comp -> option nat) : list site
 Definition edge_in_b (es : list site) (c d : comp) : bool :=
   existsb (fun s => comp_eqb (s_src s) c && comp_eqb (s_dst s) d) es.
 
+(* coverage of the translator: every textual candidate for a blocking call found by an
+   independent token scan of the sources, and what the AST pass made of it *)
+Inductive disp : Type :=
+| DSite (line : Z)          (* emitted as a blocking site starting at this line *)
+| DTell                     (* ask(block=False): emitted as a Tell site *)
+| DExpanded                 (* inside listener.send: expanded into every XListener.send site *)
+| DExempt (why : string)    (* recognised as not blocking, with the reason *)
+| DMissing.                 (* the AST pass never looked at it: fail-closed *)
+
+Record cand : Type := mkCand { c_file : string; c_line : Z; c_what : string; c_disp : disp }.
+
+Definition known_exemptions : list string :=
+  ["receiver is not a future: Gst.Registry";
+   "method of the enclosing object / same-file non-actor class";
+   "ActorRegistry.get_all: registry listing"]%string.
+
+Definition cand_accounted (ss : list site) (c : cand) : bool :=
+  match c_disp c with
+  | DSite l => existsb (fun s => site_blocking s && String.eqb (s_file s) (c_file c) && (s_line s =? l)%Z) ss
+  | DTell => true
+  | DExpanded => existsb (fun s => site_blocking s && String.eqb (s_what s) "listener.send") ss
+  | DExempt why => existsb (String.eqb why) known_exemptions
+  | DMissing => false
+  end.
+
+Definition candidates_accounted_b (cs : list cand) (ss : list site) : bool :=
+  forallb (cand_accounted ss) cs.
+
+Definition unaccounted (cs : list cand) (ss : list site) : list Z :=
+  map c_line (filter (fun c => negb (cand_accounted ss c)) cs).
+
 (* compact view used by the harness: the distinct (src,dst) pairs as numbers *)
 Definition comp_code (c : comp) : Z :=
   match c with
